@@ -7,4 +7,6 @@ CONSTRAINT Bound
 INVARIANT KernelIsStorages
 INVARIANT IndInv
 INVARIANT C07
+INVARIANT ProofInvariants
+PROPERTY ProofIsAboutThisStep
 CHECK_DEADLOCK FALSE
